@@ -80,6 +80,23 @@ theorem addH_ok {s : Option LP} {m : Nat} {o : Option LP} (hok : addH s m = .ok 
         · cases heq
       · cases ha
 
+/-! ### the margin-health gate only ever refuses -/
+theorem gate_ok {hc : Health} {r : Except Err (Option LP)} {o : Option LP} (h : gate hc r = .ok o) : r = .ok o := by
+  cases r with
+  | error e => cases h
+  | ok v => cases hc <;> simp [gate] at h <;> rw [h]
+
+theorem gate_err_bal {hc : Health} {r : Except Err (Option LP)} (h : gate hc r = .error .bal) : r = .error .bal := by
+  cases r with
+  | error e => simpa [gate] using h
+  | ok v => cases hc <;> simp [gate] at h
+
+theorem gate_not_pass {hc : Health} {r : Except Err (Option LP)} (hne : hc ≠ .pass) : ∀ o, gate hc r ≠ .ok o := by
+  intro o h
+  cases r with
+  | error e => cases h
+  | ok v => cases hc <;> simp [gate] at h <;> exact hne rfl
+
 /-! ### the transaction wrapper -/
 theorem commit_ok {s : St} {k : String} {r : Except Err (Option LP)} {s' : St}
     (h : commit s k r = (s', .ok)) : ∃ v, r = .ok v ∧ s' = s.set k v := by
@@ -220,20 +237,20 @@ theorem prune_filter_nonzero (L C : Nat) (h : Int) (rs : List Rec) :
   cases expiredGo L C h r <;> simp
 
 /-! ### step inversions -/
-theorem step_removeUnits_ok {s s' : St} {h : Int} {k : String} {w : Nat}
-    (hok : step s h (.removeUnits k w) = (s', .ok)) :
+theorem step_removeUnits_ok {s s' : St} {h : Int} {k : String} {w : Nat} {hc : Health}
+    (hok : step s h (.removeUnits k w hc) = (s', .ok)) :
     ∃ lp left o, s.lps k = some lp ∧
       removeCore s.L h lp.units (prune s.L s.C h lp.unlocks) left = .ok o ∧ s' = s.set k o := by
-  obtain ⟨o, hr, hs⟩ := commit_ok (show commit s k (removeUnitsH s.L s.C h (s.lps k) w) = (s', .ok) from hok)
-  obtain ⟨lp, left, hlp, hc⟩ := removeUnitsH_ok hr
+  obtain ⟨o, hr, hs⟩ := commit_ok (show commit s k (gate hc (removeUnitsH s.L s.C h (s.lps k) w)) = (s', .ok) from hok)
+  obtain ⟨lp, left, hlp, hc⟩ := removeUnitsH_ok (gate_ok hr)
   exact ⟨lp, left, o, hlp, hc, hs⟩
 
-theorem step_remove_ok {s s' : St} {h : Int} {k : String} {wb a : Int}
-    (hok : step s h (.remove k wb a) = (s', .ok)) :
+theorem step_remove_ok {s s' : St} {h : Int} {k : String} {wb a : Int} {hc : Health}
+    (hok : step s h (.remove k wb a hc) = (s', .ok)) :
     ∃ lp left o, s.lps k = some lp ∧
       removeCore s.L h lp.units (prune s.L s.C h lp.unlocks) left = .ok o ∧ s' = s.set k o := by
-  obtain ⟨o, hr, hs⟩ := commit_ok (show commit s k (removeH s.L s.C h (s.lps k) wb a) = (s', .ok) from hok)
-  obtain ⟨lp, left, hlp, hc⟩ := removeH_ok hr
+  obtain ⟨o, hr, hs⟩ := commit_ok (show commit s k (gate hc (removeH s.L s.C h (s.lps k) wb a)) = (s', .ok) from hok)
+  obtain ⟨lp, left, hlp, hc⟩ := removeH_ok (gate_ok hr)
   exact ⟨lp, left, o, hlp, hc, hs⟩
 
 /-- what an accepted removal implies, in the judge's own predicates -/
@@ -343,12 +360,12 @@ theorem J_step {s : St} {g : String → Ledger} (h : Int) (op : Op) (hJ : J s g)
       obtain ⟨st, ho, hle⟩ := cancelLP_ok hu
       simp only [commit]
       exact J_set0 hJ (by rw [hlp, ho]; exact hle)
-  | removeUnits k w =>
+  | removeUnits k w hc =>
     simp only [step, ledgerStep]
-    exact J_removal hJ _ (fun o ho => removeUnitsH_ok ho)
-  | remove k wb a =>
+    exact J_removal hJ _ (fun o ho => removeUnitsH_ok (gate_ok ho))
+  | remove k wb a hc =>
     simp only [step, ledgerStep]
-    exact J_removal hJ _ (fun o ho => removeH_ok ho)
+    exact J_removal hJ _ (fun o ho => removeH_ok (gate_ok ho))
   | add k m =>
     simp only [step, ledgerStep]
     cases hr : addH (s.lps k) m with
@@ -455,12 +472,12 @@ theorem WF_step {s : St} {hc : Int} (h : Int) (op : Op) (h0 : 0 ≤ hc) (hle : h
         refine ⟨by rw [hs1]; omega, ?_⟩
         rw [hs1, hc1]
         exact heightsOK_filter _ (heightsOK_consume _ _ _ _ _ (heightsOK_filter _ hh))
-  | removeUnits k w =>
+  | removeUnits k w hc =>
     simp only [step]
-    exact WF_removal hw' h1 _ (fun o ho => removeUnitsH_ok ho)
-  | remove k wb a =>
+    exact WF_removal hw' h1 _ (fun o ho => removeUnitsH_ok (gate_ok ho))
+  | remove k wb a hc =>
     simp only [step]
-    exact WF_removal hw' h1 _ (fun o ho => removeH_ok ho)
+    exact WF_removal hw' h1 _ (fun o ho => removeH_ok (gate_ok ho))
   | add k m =>
     simp only [step]
     cases hr : addH (s.lps k) m with
